@@ -366,6 +366,10 @@ mutual
     | one {k v : JBytes} : IsStringToken k → IsJson leaf v → IsMembers leaf (k ++ bs ":" ++ v)
     | cons {k v rest : JBytes} : IsStringToken k → IsJson leaf v → IsMembers leaf rest →
         IsMembers leaf (k ++ bs ":" ++ v ++ bs "," ++ rest)
+    -- insignificant white space (one blank) after the name separator, as the log payload writes it
+    | oneSp {k v : JBytes} : IsStringToken k → IsJson leaf v → IsMembers leaf (k ++ bs ": " ++ v)
+    | consSp {k v rest : JBytes} : IsStringToken k → IsJson leaf v → IsMembers leaf rest →
+        IsMembers leaf (k ++ bs ": " ++ v ++ bs "," ++ rest)
 end
 
 mutual
@@ -443,3 +447,166 @@ theorem C08_events_payload_is_json (leaf : JBytes → Prop) (hs : ∀ t, IsStrin
   apply render_isJson
   refine ⟨hs _ (C08_appendString_valid runId), ⟨hk1, hn cap, hk2, hn seen, trivial⟩, ?_, trivial⟩
   exact wellFormedList_toks leaf events he
+
+
+/-! ### the other hand-assembled payloads are JSON texts too -/
+
+/-- the literal keys of the metric, package and log payloads are string tokens (checked by evaluation, see `eventKeysOk`) -/
+def otherKeysOk : Bool :=
+  ["name", "scope", "Jars", "common", "attributes", "logs"].all (fun k =>
+    bs ("\"" ++ k ++ "\"") == 0x22 :: bs k ++ [0x22] && strBodyOk (bs k))
+#guard otherKeysOk
+
+theorem allSome_eq_filterMap {α β : Type} (f : α → Option β) (l : List α) (xs : List β)
+    (h : allSome (l.map f) = some xs) : xs = l.filterMap f := by
+  induction l generalizing xs with
+  | nil => simp [allSome] at h; simp [h]
+  | cons a as ih =>
+    simp only [List.map_cons] at h
+    cases hf : f a with
+    | none => simp [hf, allSome] at h
+    | some b =>
+      simp only [hf, allSome] at h
+      cases hr : allSome (as.map f) with
+      | none => simp [hr] at h
+      | some ys =>
+        simp only [hr, Option.map_some, Option.some.injEq] at h
+        subst h
+        simp [List.filterMap_cons, hf, ih ys hr]
+
+theorem renderList_map {α : Type} (f : α → JV) (g : α → JBytes) (l : List α)
+    (h : ∀ p ∈ l, (f p).render = g p) : JV.renderList (l.map f) = joinWith (bs ",") (l.map g) := by
+  induction l with
+  | nil => rfl
+  | cons x xs ih =>
+    cases xs with
+    | nil => simp [JV.renderList, joinWith, h]
+    | cons y ys =>
+      simp only [List.map_cons, JV.renderList, joinWith] at *
+      rw [ih (fun p hp => h p (by simp [hp])), h x (by simp)]
+
+/-- the tree of one metric row -/
+def rowTree (r : MRow) : JV :=
+  JV.arr [.obj ([(bs "\"name\"", JV.tok (appendString r.name))] ++
+                (if r.scope.isEmpty then [] else [(bs "\"scope\"", JV.tok (appendString r.scope))])),
+          .arr ((r.vals.filterMap appendFloat).map .tok)]
+
+theorem metricRow_render (r : MRow) (b : JBytes) (h : metricRow r = some b) : b = (rowTree r).render := by
+  cases hv : allSome (r.vals.map appendFloat) with
+  | none => simp [metricRow, hv] at h
+  | some fs =>
+    have := C08_metric_row_shape r fs hv
+    rw [this] at h
+    have hfs := allSome_eq_filterMap appendFloat r.vals fs hv
+    subst hfs
+    simpa [rowTree] using h.symm
+
+theorem appendFloat_leaf (leaf : JBytes → Prop) (hi : ∀ i : Int, leaf (bs (toString i))) (vals : List FVal) :
+    ∀ t ∈ vals.filterMap appendFloat, leaf t := by
+  intro t ht
+  obtain ⟨v, _, hv⟩ := List.mem_filterMap.mp ht
+  cases v with
+  | int i => simp [appendFloat] at hv; subst hv; exact hi i
+  | nan => simp [appendFloat] at hv
+  | posInf => simp [appendFloat] at hv
+  | negInf => simp [appendFloat] at hv
+
+theorem rowTree_wellFormed (leaf : JBytes → Prop) (hs : ∀ t, IsStringToken t → leaf t)
+    (hi : ∀ i : Int, leaf (bs (toString i)))
+    (hk1 : IsStringToken (bs "\"name\"")) (hk2 : IsStringToken (bs "\"scope\"")) (r : MRow) :
+    (rowTree r).WellFormed leaf := by
+  refine ⟨?_, ?_, trivial⟩
+  · by_cases he : r.scope.isEmpty
+    · simp only [he, if_true, List.append_nil]
+      exact ⟨hk1, hs _ (C08_appendString_valid r.name), trivial⟩
+    · simp only [he, Bool.false_eq_true, if_false]
+      exact ⟨hk1, hs _ (C08_appendString_valid r.name), hk2, hs _ (C08_appendString_valid r.scope), trivial⟩
+  · exact wellFormedList_toks leaf _ (appendFloat_leaf leaf hi r.vals)
+
+theorem wellFormedList_map {α : Type} (leaf : JBytes → Prop) (f : α → JV) (l : List α) (h : ∀ a ∈ l, (f a).WellFormed leaf) :
+    JV.WellFormedList leaf (l.map f) := by
+  induction l with
+  | nil => trivial
+  | cons x xs ih => exact ⟨h x (by simp), ih (fun a ha => h a (by simp [ha]))⟩
+
+/-- **C08 (a metric payload is a JSON text, or fails).**  For every run id, every name and scope (any bytes), every
+number of rows in any order: if `MetricTable.CollectorJSON` produces bytes at all (no NaN / infinity, see
+`C08_metrics_nonfinite_fails`), they are generated by the JSON grammar. -/
+theorem C08_metrics_payload_is_json (leaf : JBytes → Prop) (hs : ∀ t, IsStringToken t → leaf t)
+    (hi : ∀ i : Int, leaf (bs (toString i)))
+    (hk1 : IsStringToken (bs "\"name\"")) (hk2 : IsStringToken (bs "\"scope\""))
+    (runId : JBytes) (start stop : Int) (rows : List MRow) (b : JBytes)
+    (h : metricsPayload runId start stop rows = some b) : IsJson leaf b := by
+  unfold metricsPayload at h
+  cases hr : allSome (rows.map metricRow) with
+  | none => simp [hr] at h
+  | some rs =>
+    simp only [hr, Option.map_some, Option.some.injEq] at h
+    have hrs := allSome_eq_filterMap metricRow rows rs hr
+    have hall : ∀ r ∈ rows, ∃ rb, metricRow r = some rb := by
+      intro r hrm
+      cases hm : metricRow r with
+      | some rb => exact ⟨rb, rfl⟩
+      | none =>
+        have : allSome (rows.map metricRow) = none := allSome_none_of_mem _ (by simpa using ⟨r, hrm, hm⟩)
+        rw [this] at hr; cases hr
+    have hmap : rs = rows.map (fun r => (rowTree r).render) := by
+      rw [hrs]
+      clear hrs hr h
+      induction rows with
+      | nil => rfl
+      | cons r rest ih =>
+        obtain ⟨rb, hrb⟩ := hall r (by simp)
+        simp only [List.filterMap_cons, hrb, List.map_cons]
+        rw [metricRow_render r rb hrb, ih (fun x hx => hall x (by simp [hx]))]
+    have hb : b = (JV.arr [.tok (appendString runId), .tok (appendInt start), .tok (appendInt stop),
+                           .arr (rows.map rowTree)]).render := by
+      rw [← h, hmap]
+      simp only [JV.render, JV.renderList, List.append_assoc]
+      rw [renderList_map rowTree (fun r => (rowTree r).render) rows (fun _ _ => rfl)]
+    rw [hb]
+    apply render_isJson
+    refine ⟨hs _ (C08_appendString_valid runId), hi start, hi stop, ?_, trivial⟩
+    exact wellFormedList_map leaf rowTree rows (fun r _ => rowTree_wellFormed leaf hs hi hk1 hk2 r)
+
+/-- **C08 (package payloads are JSON texts).**  `["Jars", D]` for a package list `D` that is itself a JSON value, and the
+filtered list built from arbitrary name / version bytes. -/
+theorem C08_packages_payload_is_json (leaf : JBytes → Prop) (hs : ∀ t, IsStringToken t → leaf t)
+    (hobj : leaf (bs "{}")) (hk : IsStringToken (bs "\"Jars\""))
+    (data : JBytes) (hd : leaf data) (pkgs : List (JBytes × JBytes)) (hne : pkgs ≠ []) :
+    IsJson leaf (packagesPayload data) ∧ ∃ b, filteredPackages pkgs = some b ∧ IsJson leaf b := by
+  obtain ⟨h1, h2⟩ := C08_packages_payload_shape data pkgs hne
+  constructor
+  · rw [h1]
+    exact render_isJson leaf _ ⟨hs _ hk, hd, trivial⟩
+  · refine ⟨_, h2, ?_⟩
+    apply render_isJson
+    exact wellFormedList_map leaf _ pkgs (fun p _ =>
+      ⟨hs _ (C08_appendString_valid p.1), hs _ (C08_appendString_valid p.2), hobj, trivial⟩)
+
+/-- **C08 (the log payload is a JSON text).**  `[{"common": {"attributes": L},"logs": [...]}]` with the labels object `L`
+and every forwarded event a JSON value; events shorter than 4 bytes are skipped wherever they stand, and no separator
+is left behind. -/
+theorem C08_log_payload_is_json (leaf : JBytes → Prop)
+    (hk1 : IsStringToken (bs "\"common\"")) (hk2 : IsStringToken (bs "\"attributes\"")) (hk3 : IsStringToken (bs "\"logs\""))
+    (hsplit : bs "[{\"common\": {\"attributes\": " = bs "[" ++ (bs "{" ++ (bs "\"common\"" ++ (bs ": " ++ (bs "{" ++ (bs "\"attributes\"" ++ bs ": "))))))
+    (hsplit2 : bs "},\"logs\": " = bs "}" ++ (bs "," ++ (bs "\"logs\"" ++ bs ": ")))
+    (hsplit3 : bs "}]" = bs "}" ++ bs "]")
+    (labels : JBytes) (hl : leaf labels) (events : List JBytes) (he : ∀ e ∈ events, leaf e) :
+    IsJson leaf (logPayload labels events) := by
+  rw [C08_log_payload_shape, hsplit, hsplit2, hsplit3]
+  have harr : IsJson leaf (JV.arr ((events.filter (fun e => e.length ≥ 4)).map .tok)).render :=
+    render_isJson leaf _ (wellFormedList_toks leaf _ (fun e hm => he e (List.mem_filter.mp hm).1))
+  have hinner : IsJson leaf (bs "{" ++ (bs "\"attributes\"" ++ bs ": " ++ labels) ++ bs "}") :=
+    IsJson.obj (IsMembers.oneSp hk2 (IsJson.tok hl))
+  have hmem : IsMembers leaf (bs "\"common\"" ++ bs ": " ++ (bs "{" ++ (bs "\"attributes\"" ++ bs ": " ++ labels) ++ bs "}") ++ bs "," ++
+      (bs "\"logs\"" ++ bs ": " ++ (JV.arr ((events.filter (fun e => e.length ≥ 4)).map .tok)).render)) :=
+    IsMembers.consSp hk1 hinner (IsMembers.oneSp hk3 harr)
+  have := IsJson.arr (IsElems.one (IsJson.obj hmem))
+  simpa only [List.append_assoc] using this
+
+/-- the literal pieces of the log payload split as the proof above assumes (evaluation, as for the keys) -/
+def logLiteralsOk : Bool :=
+  bs "[{\"common\": {\"attributes\": " == bs "[" ++ (bs "{" ++ (bs "\"common\"" ++ (bs ": " ++ (bs "{" ++ (bs "\"attributes\"" ++ bs ": "))))) &&
+  bs "},\"logs\": " == bs "}" ++ (bs "," ++ (bs "\"logs\"" ++ bs ": ")) && bs "}]" == bs "}" ++ bs "]"
+#guard logLiteralsOk
